@@ -764,8 +764,8 @@ func deletedTimersMachine(cfg fw.Config, rec *fw.Rec) {
 
 func Run(cfg fw.Config, rec *fw.Rec) {
 	log.SetOutput(io.Discard)
-	rec.Rule = "sio timers through a real Crew whose input channel the harness owns (the harness plays the crew loop; results are serialised by a consumer goroutine as Stdio does): scenarios of 4-18 steps over ids {x,y}: make (2-16 ms, or 10 s), cancel (also of ids that are free: refused, and later requests must still be honoured), receive for a while, stop receiving so that due timers block inside the emitter and then cancel / re-create the blocked id, quiesce; per timer: fired at most once, not before clock-before-request + delay, not after an acknowledged cancel that preceded its due time; at quiescent points the reported timers state (after a flush message) and the live machine state must equal accepted - fired - cancelled ('accepted' = reported pending right after the request); restart: timers persisted as JSON resume on a new crew (in a third of the scenarios the new crew is restarted again from what it reported), in a quarter the host stays down until the short timers are overdue while a 3 s timer is not yet due; the pending set held and reported right after each restart equals the persisted one, the timers fire exactly once on the last crew and never on an earlier one; under -race; non-trivial = scenario in which a timer fired; distinct by scenario"
-	rec.Required = []string{"fired", "accepted", "cancelled", "quiescent_points_compared", "phases_with_blocked_firing", "make_while_a_firing_is_blocked", "restart_scenarios", "timers_resumed_after_restart", "resumed_timer_cancelled_after_restart", "pending_set_compared_right_after_restart", "second_restart_from_state_reported_after_first", "restart_with_overdue_timers", "cancel_of_free_id", "timers_machine_deleted_with_pending_timers", "timers_machine_reset_while_timers_pending"}
+	rec.Rule = "(at the end: timers through the crew's own loop - Crew.Loop running, the harness as the coupling - with messages to a sink, to nobody, null, a string, false, {}: reported as pending from the result of the request until a result that follows the firing, which arrives within 30 s) sio timers through a real Crew whose input channel the harness owns (the harness plays the crew loop; results are serialised by a consumer goroutine as Stdio does): scenarios of 4-18 steps over ids {x,y}: make (2-16 ms, or 10 s), cancel (also of ids that are free: refused, and later requests must still be honoured), receive for a while, stop receiving so that due timers block inside the emitter and then cancel / re-create the blocked id, quiesce; per timer: fired at most once, not before clock-before-request + delay, not after an acknowledged cancel that preceded its due time; at quiescent points the reported timers state (after a flush message) and the live machine state must equal accepted - fired - cancelled ('accepted' = reported pending right after the request); restart: timers persisted as JSON resume on a new crew (in a third of the scenarios the new crew is restarted again from what it reported), in a quarter the host stays down until the short timers are overdue while a 3 s timer is not yet due; the pending set held and reported right after each restart equals the persisted one, the timers fire exactly once on the last crew and never on an earlier one; under -race; non-trivial = scenario in which a timer fired; distinct by scenario"
+	rec.Required = []string{"timers_through_the_crews_own_loop", "loop_timer_message_null", "fired", "accepted", "cancelled", "quiescent_points_compared", "phases_with_blocked_firing", "make_while_a_firing_is_blocked", "restart_scenarios", "timers_resumed_after_restart", "resumed_timer_cancelled_after_restart", "pending_set_compared_right_after_restart", "second_restart_from_state_reported_after_first", "restart_with_overdue_timers", "cancel_of_free_id", "timers_machine_deleted_with_pending_timers", "timers_machine_reset_while_timers_pending"}
 	rec.Assume = []string{"a cancel acknowledged after the timer's due time overlaps its firing (the goroutine may already be blocked in the emitter): either outcome accepted", "a request the timers machine does not accept (duplicate pending id) must leave the pending set as it was", "bounded progress: 30 s"}
 	n := cfg.Pick(150, 5000)
 	fw.Parallel(6, n, func(w, i int) { scenario(cfg, rec, i) })
@@ -773,4 +773,5 @@ func Run(cfg fw.Config, rec *fw.Rec) {
 		restart(cfg, rec, i)
 	}
 	deletedTimersMachine(cfg, rec)
+	fw.Parallel(4, cfg.Pick(4, 40), func(w, i int) { loopDriven(rec, i) })
 }
